@@ -502,7 +502,7 @@ def single_ops(L, nrows, arr, mt, tier):
 
 def exhaustive_block(tier, flags):
     shapes = ([(1, 3, "AC-"), (1, 4, "A-"), (2, 3, "A-"), (3, 1, "A-")] if tier == "quick"
-              else [(1, 4, "AC-"), (1, 5, "A-"), (2, 4, "A-"), (2, 3, "AC-"), (3, 3, "A-")])
+              else [(1, 4, "AC-"), (1, 5, "A-"), (2, 4, "A-"), (2, 3, "AC-"), (3, 2, "A-")])
     cases = []
     seen = set()
     for nrows, maxL, alpha in shapes:
